@@ -12,10 +12,12 @@ against the statement:
   I  `state.event_matching_heads` (+ `event_matching_heads_reverse_map`) is exactly what a from-scratch scan of all
      non-inactive heads of all running flows finds (no waiting head missed, no stale entry, no duplicate).
 
-Each history is explored (a) in memory, for every outcome of the interpreter's random tie-breaks, without and with
-simulated idle time (> 5 s, the clean-up age threshold) before events, and (b) with the state saved and restored with
-`state_to_json` / `json_to_state` between all events (the restored JSON blob is the fork point of the history tree), for
-every idle mask."""
+Each history is explored (a) on one in-memory State, enumerating the outcomes of the interpreter's random tie-breaks,
+without and with simulated idle time (> 5 s, the clean-up age threshold; a virtual clock is patched into the statemachine
+and flows modules) before events, and (b) with the state saved and restored with `state_to_json` / `json_to_state` between
+all events (the JSON blob is the fork point of the history tree), again without and with idle time.  The exact bounds of
+each tier are stated in the `bound` of the records.  The driver mirrors Runtime.process_events: main is (re)started when it
+is waiting, and an exception of run_to_completion is answered with a ColangError event."""
 from pyvc.api import *
 
 SM = "nemoguardrails/colang/v2_x/runtime/statemachine.py"
@@ -24,7 +26,8 @@ SER = "nemoguardrails/colang/v2_x/runtime/serialization.py"
 CLAUSE = dict(
     quiet="after an external event has been processed no internal event is pending (len(state.internal_events) == 0)",
     parked="every non-inactive head of a running flow is ACTIVE and parked on a waiting statement (a match, or a "
-           "wait-for-heads barrier that still lacks heads); a running flow has at least one such head",
+           "wait-for-heads barrier that still lacks heads); a running flow has at least one such head (except an activated flow "
+           "without any waiting statement, which the interpreter deliberately keeps started with its head switched off at the end)",
     done="finished / failed (FINISHED, STOPPED, STOPPING) flow instances hold no head positions",
     refs="every flow / action uid referenced by a running flow (child_flow_uids, action_uids, parent_uid) exists in "
          "state.flow_states / state.actions",
@@ -37,6 +40,14 @@ CLAUSE = dict(
     returns="the external event can be processed to quiescence (run_to_completion returns, if necessary after the "
             "runtime's ColangError recovery)",
 )
+
+# References held in `FlowState.scopes` (flows / actions started inside a still open when/and-group scope) are NOT part of
+# the default oracle (the contract lists child_flow_uids, action_uids and parent_uid).  With this switch on, the unchanged
+# tree fails: `when fa and fb` / event A / > 5 s idle / any event leaves the collected instance of `fa` listed in the open
+# scope of the running main flow (statemachine.slide guards the lookup: "should not be needed if states would be
+# cleaned-up correctly").
+import os as _os
+CHECK_SCOPE_REFS = bool(_os.environ.get("C09_SCOPES"))
 
 # ---------------------------------------------------------------------------------------------
 # program corpus
@@ -100,6 +111,9 @@ _BLOCKS = {
     "stopref": ["start fab as $g", "match C()", "send $g.Stop()"],
     "orflowev": ["match fa.Finished() or B()"],
     "startwhen": ["start fwhen"],
+    "whendup": ["when A()", '  send StartUtteranceBotAction(script="d1")', "or when A()", "  match B()"],
+    "mdup": ["match A() or (A() and B())"],
+    "whenand": ["when fa and fb", "  match C()", "or when C()", "  match A()"],
     "abort": ["abort"],
     "return": ["return"],
 }
@@ -108,22 +122,25 @@ _LIB_PROGRAMS = [
     # (name, library files, main source, alphabet)
     ("lib-greeting", ["core.co"],
      'flow greeting\n  user said "hi"\n  bot say "hello"\n\nflow main\n  activate greeting\n  match Never()\n',
-     ["U:hi", "U:yo", "F", "X"]),
+     ["U:hi", "F", "X"]),
     ("lib-or-said", ["core.co"],
      'flow main\n  user said "hi" or user said "yo"\n  bot say "one"\n  user said "hi"\n  bot say "two"\n',
      ["U:hi", "U:yo", "F"]),
     ("lib-when-said", ["core.co"],
      'flow main\n  activate notification of undefined flow start\n  when user said "hi"\n    bot say "a"\n  or when user said something\n'
      '    bot inform "b"\n  or when bot said something\n    match A()\n',
-     ["U:hi", "U:yo", "F", "A"]),
+     ["U:hi", "U:yo", "F"]),
     ("lib-unexpected", ["core.co"],
      'flow main\n  activate notification of unexpected user utterance\n  activate tracking bot talking state\n  user said "hi"\n  bot say "x" and bot express "y"\n'
      '  match Never()\n',
      ["U:hi", "U:yo", "F"]),
     ("lib-tracking", ["core.co"],
      'flow a\n  user said something\n  bot say "ok"\n\nflow main\n  activate tracking user talking state\n  activate a\n  user said "yo" or bot said "ok"\n',
-     ["U:hi", "U:yo", "F", "X"]),
+     ["U:hi", "U:yo", "F"]),
 ]
+
+
+_LIB_SHALLOW = ("lib-when-said", "lib-unexpected", "lib-tracking")   # length-2 histories in the quick tier (many flows per step)
 
 
 def _indent(lines, n=2):
@@ -176,7 +193,8 @@ _CURATED = [
     (["startref", "mor"], True), (["awaitact", "mor"], True), (["actor", "m1"], True), (["startact", "mor", "m1"], False),
     (["while", "send"], True), (["whilebreak", "m1"], False), (["if", "awaitf"], False), (["startf", "stop", "m1"], True),
     (["actb", "finish", "mor"], False), (["orflowev", "m1"], True), (["startwhen", "mor"], False), (["startstart", "mor"], False),
-    (["actf", "actab", "m1"], False), (["mor3", "abort"], False), (["mor", "return"], False), (["awaitc", "mor"], False),
+    (["actf", "actab", "m1"], False), (["actf", "m1", "send"], False), (["whendup", "m1"], False), (["mdup", "send"], True),
+    (["whenand", "m1"], False), (["actf", "actand", "m1", "send"], True), (["mor3", "abort"], False), (["mor", "return"], False), (["awaitc", "mor"], False),
 ]
 
 
@@ -228,8 +246,18 @@ def _state_violations(state):
         for a in fs.action_uids:
             if a not in state.actions:
                 bad.append(("refs", "running flow %s lists action %s which is not in state.actions" % (uid, a)))
+        if CHECK_SCOPE_REFS:
+            for sc, (fl, ac) in fs.scopes.items():
+                for c in fl:
+                    if c not in state.flow_states:
+                        bad.append(("refs", "running flow %s scope %s lists flow %s which is not in state.flow_states" % (uid, sc, c)))
+                for a in ac:
+                    if a not in state.actions:
+                        bad.append(("refs", "running flow %s scope %s lists action %s which is not in state.actions" % (uid, sc, a)))
         if fs.parent_uid is not None and fs.parent_uid not in state.flow_states:
-            bad.append(("refs", "running flow %s has parent %s which is not in state.flow_states" % (uid, fs.parent_uid)))
+            bad.append(("refs", "running flow %s has parent %s which is not in state.flow_states%s" % (
+                uid, fs.parent_uid, " [instance of an activated flow whose reference instance was collected]"
+                if fs.parent_uid.startswith("(%s)" % fs.flow_id) else "")))
     indexed = []
     for name, lst in state.event_matching_heads.items():
         for fuid, huid in lst:
@@ -509,10 +537,10 @@ def native_checks(rng, tier):
         # ---- corpus
         programs = []
         for keys, tail in _CURATED:
-            programs.append(_program(keys, tail) + ((),))
+            programs.append(_program(keys, tail) + ((), "curated"))
         keys_all = sorted(_BLOCKS)
         terminal = ("abort", "return")
-        n_random = 150 if thorough else 36
+        n_random = 40 if thorough else 10
         seen_names = {p[0] for p in programs}
         guard = 0
         while n_random > 0 and guard < 5000:
@@ -526,19 +554,21 @@ def native_checks(rng, tier):
             if p[0] in seen_names:
                 continue
             seen_names.add(p[0])
-            programs.append(p + ((),))
+            programs.append(p + ((), "random"))
             n_random -= 1
         for name, libs, src, alphabet in _LIB_PROGRAMS:
-            programs.append((name, src, alphabet, tuple(libs)))
+            programs.append((name, src, alphabet, tuple(libs), "library"))
 
-        L = 4 if thorough else 3
-        cap = 5 if thorough else 4
+        L = 4 if thorough else 3        # history length (thorough: 4 for the curated programs, 3 with all idle masks for the others)
+        cap = 4
+        max_scripts = 64 if thorough else 12
         recs = {
             "mem": dict(function="run_to_completion (in-memory state, all tie-breaks, idle time)", evaluations=0, distinct=0, failing=[]),
             "json": dict(function="run_to_completion after json_to_state(state_to_json(state)) between events", evaluations=0, distinct=0, failing=[]),
         }
         skipped = []
         timing = []
+        ties = [0, 0]
         time_cap = 600.0 if thorough else 42.0
 
         def fail(kind, file, name, src, history, mask, script, bad, extra=""):
@@ -547,11 +577,11 @@ def native_checks(rng, tier):
                 return
             key, text = bad[0]
             scenario = "program %s:\n%s\nevents %s; idle(>5s) before event: %s%s%s" % (
-                name, src, list(history), [int(bool(x)) for x in mask], ("; tie-breaks %s" % (script,)) if script else "", extra)
+                name, src, list(history), [int(bool(x)) for x in mask][:len(history)], ("; tie-breaks %s" % (script,)) if script else "", extra)
             rec["failing"].append(dict(kind="post", function=rec["function"], file=file, property_id="C09", clause=CLAUSE[key],
                                        inputs=scenario, outcome="; ".join(t for _, t in bad[:3])[:700]))
 
-        for name, src, alphabet, libs in programs:
+        for p_idx, (name, src, alphabet, libs, origin) in enumerate(programs):
             if time.time() - t_start > time_cap:
                 skipped.append(name)
                 continue
@@ -563,19 +593,24 @@ def native_checks(rng, tier):
                 continue
             alphabet = list(alphabet)
             t_prog = time.time()
-            if len(alphabet) > cap:
+            if len(alphabet) > cap or (not thorough and len(alphabet) == cap and p_idx % 2 == 1):
+                # over the cap the unrelated event is dropped first (in the quick tier also for every second program at the cap)
                 alphabet = [x for x in alphabet if x != "X"][:cap]
-            depth = L if not libs or thorough else min(L, 3)
+            depth = L if origin == "curated" else 3
+            all_masks = thorough and origin != "curated"
+            if libs and not thorough and name in _LIB_SHALLOW:
+                depth = 2
             histories = list(itertools.product(alphabet, repeat=depth))
-            # ---- (a) in memory: every history, tie-breaks enumerated, idle masks none / all / last (+ all masks in thorough)
+            # ---- (a) in memory: every history, tie-breaks enumerated; idle masks: none for every history plus alternately
+            #      before every event / before the last event (all 2^depth masks where all_masks)
             masks = [(False,) * depth, (True,) * depth, (False,) * (depth - 1) + (True,)]
-            if thorough:
+            if all_masks:
                 masks = list(itertools.product((False, True), repeat=depth))
             failed = False
-            for hist in histories:
+            for h_idx, hist in enumerate(histories):
                 if failed:
                     break
-                for mask in masks:
+                for mask in (masks if all_masks else [masks[0], masks[1 + h_idx % 2]]):
                     scripts = [[]]
                     n_scripts = 0
                     while scripts and not failed:
@@ -584,24 +619,33 @@ def native_checks(rng, tier):
                         at, bad = _run_in_memory(world, flows, hist, mask, script)
                         recs["mem"]["evaluations"] += (len(hist) if at is None else at + 1)
                         recs["mem"]["distinct"] += 1
+                        ties[0] += 1 if world.taken else 0
+                        ties[1] += 1 if script else 0
                         if bad:
                             fail("mem", SM, name, src, hist[:(at + 1) if at is not None and at >= 0 else 0], mask, [i for i, _ in world.taken], bad)
                             failed = True
                             break
                         # enumerate the other outcomes of every tie-break taken beyond the scripted prefix
-                        if n_scripts < (64 if thorough else 12) and (thorough or not any(mask)):
+                        if n_scripts < max_scripts:
                             for k in range(len(script), len(world.taken)):
                                 for alt in range(1, world.taken[k][1]):
                                     scripts.append([i for i, _ in world.taken[:k]] + [alt])
                     if failed:
                         break
             # ---- (b) save/restore between all events, every idle mask
-            trees = [[(False, True)] * depth] if thorough else [[(False,)] * (depth - 1) + [(False, True)], [(True,)] * depth]
+            trees = [[(False, True)] * depth] if all_masks else [[(False,)] * (depth - 1) + [(False, True)], [(True,)] * depth]
+
+            json_failed = []
 
             def on_fail(hist, mask, bad, _name=name, _src=src):
+                if json_failed:
+                    return
+                json_failed.append(1)
                 fail("json", SER, _name, _src, hist, mask, None, bad, "; state saved with state_to_json and restored with json_to_state before every event")
 
             for idle_levels in trees:
+                if json_failed:
+                    break
                 n = _tree_json(world, flows, alphabet, depth, idle_levels, on_fail, [10 ** 9])
                 recs["json"]["evaluations"] += n
                 recs["json"]["distinct"] += n
@@ -610,22 +654,28 @@ def native_checks(rng, tier):
         world.uninstall()
 
     n_prog = len(programs) - len(skipped)
-    bound_common = ("%d programs (%d curated + %d random sequences of 2-3 statement blocks out of %d block kinds: match with or/and groups, "
-                    "send, start/await/activate/deactivate of flows and actions, flow or/and groups, when/or when/else, if, while/break/continue, "
-                    "StopFlow/FinishFlow, abort, return; %d programs over shipped core.co flows); event histories: exhaustive, length %d, over each "
-                    "program's own events plus an unrelated event X and `F` = finish the last started action (alphabet <= %d); main restarted "
-                    "when waiting as Runtime.process_events does; %d programs skipped (time cap / not loadable): %s" % (
-                        n_prog, len(_CURATED), len(programs) - len(_CURATED) - len(_LIB_PROGRAMS), len(_BLOCKS), len(_LIB_PROGRAMS), L, cap,
-                        len(skipped), skipped[:6]))
-    recs["mem"]["bound"] = bound_common + ("; in memory; idle (>5 s, virtual clock patched into statemachine/flows) masks: %s; random tie-breaks "
-                                           "(random.choice) enumerated exhaustively up to %d runs per (history, mask); %d run_to_completion "
-                                           "exceptions recovered via ColangError" % ("all 2^L" if thorough else "none / before every event / before the last event",
-                                                                                 64 if thorough else 12, world.errors))
-    recs["json"]["bound"] = bound_common + "; state_to_json/json_to_state between all events (tree forked from the JSON blob), idle masks: %s; tie-breaks drawn from the seeded rng" % (
-        "all 2^L" if thorough else "none / before every event / before the last event")
+    n_rand = len(programs) - len(_CURATED) - len(_LIB_PROGRAMS)
+    if thorough:
+        hist_text = ("exhaustive event histories of length 4 for the curated programs (idle masks: none for every history plus alternately "
+                     "before every event / before the last event) and of length 3 with all 2^3 idle masks for the random and library programs")
+    else:
+        hist_text = ("exhaustive event histories of length 3 (length 2 for %d of the library programs); idle masks: none for every history "
+                     "plus before every event / before the last event (in memory: alternately per history)" % len(_LIB_SHALLOW))
+    bound_common = ("%d programs: %d curated + %d random sequences of 2-3 statement blocks out of %d block kinds (match with or/and groups, "
+                    "send, start/await/activate/deactivate of flows and actions, flow or/and groups, when/or when/else, if, "
+                    "while/break/continue, StopFlow/FinishFlow, abort, return) + %d programs over shipped core.co flows; %s; alphabet = the "
+                    "program's own events, `F` = finish the most recently started action, an unrelated event X (at most %d symbols); idle = "
+                    "6 s on a virtual clock patched into statemachine/flows; main restarted when waiting, as Runtime.process_events does; "
+                    "%d programs skipped (time cap / not loadable): %s" % (
+                        n_prog, len(_CURATED), n_rand, len(_BLOCKS), len(_LIB_PROGRAMS), hist_text, cap, len(skipped), skipped[:6]))
+    recs["mem"]["bound"] = bound_common + ("; one in-memory State per history; outcomes of random.choice tie-breaks enumerated depth-first, at most "
+                                           "%d runs per (history, idle mask); %d exceptions of run_to_completion recovered the way the runtime does "
+                                           "(ColangError event)" % (max_scripts, world.errors))
+    recs["json"]["bound"] = bound_common + ("; state saved with state_to_json after every event and restored with json_to_state before the next one "
+                                            "(the blob is the fork point of the history tree); tie-breaks drawn from the seeded rng")
     import os
     if os.environ.get("C09_TIMING"):
-        print(sorted(timing, reverse=True)[:15], sum(t for t, _, _ in timing))
+        print(sorted(timing, reverse=True)[:15], sum(t for t, _, _ in timing), "tie-break runs", ties)
     for rec in recs.values():
         rec["failures"] = len(rec["failing"])
         yield rec
